@@ -57,10 +57,47 @@ def build_base(case):
     m.add_variables({k: fexpr.to_float(Fraction(v)) for k, v in b["vars"]})
     for k, d in b.get("derived", []):
         m.add_derived(k, fn=fexpr.compile_fn(d["e"], len(d["args"])), args=list(d["args"]))
+    raw = dict((k, v) for k, v in b.get("raw", []))
     for k, r in b["rxns"]:
-        m.add_reaction(k, fn=fexpr.compile_fn(r["e"], len(r["args"])), args=list(r["args"]),
-                       stoichiometry={c: int(v) for c, v in r["st"]})
+        st = {c: int(v) for c, v in r["st"]}
+        if k in raw:
+            st = {c: py_coef(spec) for c, spec in raw[k]}  # the coefficients as the user wrote them: int | float | Derived
+        m.add_reaction(k, fn=fexpr.compile_fn(r["e"], len(r["args"])), args=list(r["args"]), stoichiometry=st)
     return m
+
+
+def _two():
+    return 2.0
+
+
+def py_coef(spec):
+    """{"int": n} | {"float": "n/d"} | "derived" -> the Python object"""
+    from mxlpy.model import Derived
+
+    if spec == "derived":
+        return Derived(fn=_two, args=[])
+    if "int" in spec:
+        return int(spec["int"])
+    return fexpr.to_float(Fraction(spec["float"]))
+
+
+def raw_of(case):
+    return dict((k, v) for k, v in case["base"].get("raw", []))
+
+
+def first_bad(coefs):
+    """the exception `_unpack_stoichiometries` raises on these coefficients, read entry by entry: a Derived is no
+    number (TypeError), a float that is not a whole number cannot be labelled (ValueError); None when all pass"""
+    for _, spec in coefs:
+        if spec == "derived":
+            return "TypeError"
+        if "float" in spec and Fraction(spec["float"]).denominator != 1:
+            return "ValueError"
+    return None
+
+
+def nonint(coefs):
+    return first_bad(coefs) is not None
 
 
 def init_arg(case):
@@ -219,12 +256,13 @@ def _real_worker(case):
     try:
         lm = mapper.build_model(initial_labels=il)
     except Exception as e:  # noqa: BLE001
-        return dict(out, build=_exc(e), attrs=attrs_of(mapper))
+        return dict(out, build=_exc(e), attrs=attrs_of(mapper), dims=real_dims(case, base))
     if il != il_keep:
         # the caller's labelling request is not the library's to change (it is typically reused for the next build)
         return dict(out, build={"err": ["caller's initial_labels dict was modified by build_model"]}, attrs=attrs_of(mapper))
     out["build"] = {"ok": True}
     out["attrs"] = attrs_of(mapper)
+    out["dims"] = real_dims(case, base)
     out["rxns"] = canon_rxns([[k, r.args, list(r.stoichiometry.items())] for k, r in lm.get_raw_reactions().items()])
     try:
         out["vars"] = {"ok": sorted([k, num(v)] for k, v in lm.get_initial_conditions().items())}
@@ -238,7 +276,8 @@ def _real_worker(case):
         out["pars"] = sorted([k, num(v)] for k, v in lm.get_parameter_values().items())
     except Exception as e:  # noqa: BLE001
         out["pars"] = _exc(e)
-    rhs, sums, base_rhs = [], [], []
+    rhs, sums, base_rhs, prod, fluxes, posflux = [], [], [], [], [], []
+    maps_ = dict((k, v) for k, v in case["maps"])
     lv = lv_of(case)
     for st in case.get("states", []):
         state = {k: fexpr.to_float(Fraction(v)) for k, v in st}
@@ -262,8 +301,67 @@ def _real_worker(case):
             base_rhs.append({"ok": [[x, num(br[x])] for x, _ in case["base"]["vars"]]})
         except Exception as e:  # noqa: BLE001
             base_rhs.append(_exc(e))
-    out["rhs"], out["sums"], out["base_rhs"] = rhs, sums, base_rhs
+        # base fluxes at the totals; label flux per position from the real labelled model's fluxes
+        try:
+            bf = base.get_fluxes(tot, 0.0)
+            fluxes.append({"ok": [[k, num(bf[k])] for k, _ in case["base"]["rxns"]]})
+        except Exception as e:  # noqa: BLE001
+            fluxes.append(_exc(e))
+        try:
+            lf = lm.get_fluxes(state, 0.0)
+            pf = []
+            for k, r0 in case["base"]["rxns"]:
+                if k not in maps_:
+                    continue
+                grp = [(n, Fraction(float(lf[n]))) for n in lf.index if n.startswith(k + "__")]
+                s_, p_ = unpack(r0["st"])
+                N = max(sum(lv.get(c, 0) for c in s_), sum(lv.get(c, 0) for c in p_))
+                for pos in range(N):
+                    pf.append([k, pos, num(fexpr.to_float(sum((v for n, v in grp if n[len(k) + 2:][pos:pos + 1] == "1"), Fraction(0))))])
+            posflux.append({"ok": pf})
+        except Exception as e:  # noqa: BLE001
+            posflux.append(_exc(e))
+        # is the base rate law the product of its arguments at the totals (the `MassAction` premise)
+        try:
+            import math
+
+            env = base.get_args(tot, 0.0)
+            prod.append({"ok": [[k, bool(Fraction(float(r.fn(*[env[a] for a in r.args])))
+                                     == math.prod([Fraction(float(env[a])) for a in r.args], start=Fraction(1)))]
+                                for k, r in base.get_raw_reactions().items()]})
+        except Exception as e:  # noqa: BLE001
+            prod.append(_exc(e))
+    out["rhs"], out["sums"], out["base_rhs"], out["prod"] = rhs, sums, base_rhs, prod
+    out["fluxes"], out["posflux"] = fluxes, posflux
     return out
+
+
+def real_dims(case, base):
+    """per mapped reaction: substrate / product label positions and the external label string, from the real helpers"""
+    from mxlpy import label_map as L
+
+    lv = lv_of(case)
+    maps = dict((k, v) for k, v in case["maps"])
+    out = []
+    try:
+        for name, rxn in base.get_raw_reactions().items():
+            if name not in maps:
+                continue
+            bs, bp = L._unpack_stoichiometries(stoichiometries=rxn.stoichiometry)
+            ns = sum(L._get_labels_per_variable(label_variables=lv, compounds=bs))
+            np_ = sum(L._get_labels_per_variable(label_variables=lv, compounds=bp))
+            # the map counted from the front, by Python's own index rule on a sequence as long as the rate suffix
+            try:
+                front = [list(range(max(ns, np_)))[i] for i in maps[name]]
+            except IndexError:
+                front = ["IndexError"]
+            out.append([name, ns, np_, L._get_external_labels(total_product_labels=np_, total_substrate_labels=ns), front])
+        # net coefficient of every base variable in every base reaction
+        net = [[name, x, str(int(rxn.stoichiometry.get(x, 0)))]
+               for name, rxn in base.get_raw_reactions().items() for x, _ in case["base"]["vars"]]
+    except Exception as e:  # noqa: BLE001
+        return _exc(e)
+    return {"ok": out, "net": net}
 
 
 # --------------------------------------------------------------------------- oracle (declarative)
@@ -285,17 +383,21 @@ def spec_structure(case):
     lv = lv_of(case)
     maps = dict((k, v) for k, v in case["maps"])
     # build error: first offending mapped reaction in declaration order
+    raw = raw_of(case)
     for name, r in case["base"]["rxns"]:
         if name not in maps:
             continue
+        if name in raw and first_bad(raw[name]):
+            # a mapped reaction is unpacked first: whole numbers pass however they are written, before the map is looked at
+            return {"err": [first_bad(raw[name])]}, None
         subs, prods = unpack(r["st"])
         ns = sum(lv.get(c, 0) for c in subs)
         np_ = sum(lv.get(c, 0) for c in prods)
         m = maps[name]
         if len(m) < ns:
             return {"err": ["ValueError"]}, None
-        if any(i >= max(ns, np_) for i in m):
-            return {"err": ["IndexError"]}, None
+        if any(i >= max(ns, np_) or i < -max(ns, np_) for i in m):
+            return {"err": ["IndexError"]}, None  # `rate_suffix[i]`: -N <= i < N, a negative index counts from the end
     out = []
     for name, r in case["base"]["rxns"]:
         if name not in maps:
@@ -323,7 +425,7 @@ def spec_structure(case):
             pos = 0
             prod_names = []
             for c, k in zip(prods, nprod):
-                bits = [src[m[i]] for i in range(pos, min(pos + k, len(m)))]
+                bits = [src[m[i] if m[i] >= 0 else len(src) + m[i]] for i in range(pos, min(pos + k, len(m)))]
                 pos += k
                 prod_names.append(nm(c, bits))
             for p in prod_names:
@@ -501,15 +603,20 @@ def model_request(case):
                      "derived": case["base"].get("derived", []),
                      "rxns": [[k, {"args": r["args"], "e": r["e"], "st": r["st"]}] for k, r in case["base"]["rxns"]]},
             "states": case.get("states", []),
+            "raw": case["base"].get("raw", []),
             "queries": [q[:3] for q in case.get("queries") or []]}
 
 
 def canon_Q(m):
     return {"queries": [({"ok": q["ok"]} if "ok" in q else {"err": [q["err"][0]]}) for q in m.get("queries", [])],
-            "isos": {"ok": m.get("isos", [])}}
+            "isos": {"ok": m.get("isos", [])},
+            "dims": {"ok": [list(d) for d in m.get("dims", [])], "net": [list(d) for d in m.get("net", [])]}}
 
 
 def canon_M(m):
+    if m.get("nat") == "differs":
+        # the natural-number entry point (the one the theorems are stated for) and the integer one disagree
+        return dict(canon_Q(m), build={"err": ["model: buildModel and buildModelI differ on a map without negative indices"]})
     if "err" in m:
         return dict(canon_Q(m), build={"err": [m["err"][0]]})
     o = m["ok"]
@@ -522,6 +629,10 @@ def canon_M(m):
         "pars": sorted(o["pars"]),
         "rhs": [{"ok": sorted(r)} for r in o["rhs"]],
         "sums": [{"ok": s} for s in o["sums"]],
+        "base_rhs": [{"ok": s} for s in o["base_rhs"]],
+        "fluxes": [{"ok": s} for s in o["fluxes"]],
+        "posflux": [{"ok": [list(x) for x in s]} for s in o["posflux"]],
+        "prod": [{"ok": [list(x) for x in s]} for s in o["prod"]],
     }
 
 
@@ -571,8 +682,12 @@ def judge_case(ctx, case, R, M):
                                     [None] * len(case["queries"]) if M is None else M["queries"]):
                 ctx.judge(dict(sub, queries=[q]), r, r if sq is None else sq, mq, what=what)
             ctx.judge(sub, R["isos" + key], spec_isos(case), None if M is None else M["isos"], what="get_isotopomers()" + key)
+    # 0b. the vocabulary of the theorems (nSub, nProd, extOf) against the real helpers
+    if "dims" in R and not any(nonint(v) for v in raw_of(case).values()):
+        ctx.judge(sub, R["dims"], R["dims"], None if M is None else M["dims"],
+                  what="substrate / product label positions and external label string (real helpers vs model)")
     # 1. accepted / rejected with the right exception class
-    if ctx.judge(sub, R["build"], sb, Mb, what="build outcome (short map -> ValueError)") != "ok":
+    if ctx.judge(sub, R["build"], sb, Mb, what="build outcome (short map -> ValueError, index outside -N..N-1 -> IndexError)") != "ok":
         return
     if "err" in R["build"]:
         return
@@ -605,6 +720,20 @@ def judge_case(ctx, case, R, M):
         if cov:
             # RHS of the labelled model: real vs Lean model (drift check only)
             ctx.judge(one, R["rhs"][i], R["rhs"][i], None if M is None else M["rhs"][i], what="labelled RHS real vs model")
+        if cov and "ok" in R["base_rhs"][i] and "ok" in R["rhs"][i]:
+            # the right-hand side of the dynamics theorems (`baseRhsOf` at `totalsEnv`) is the real base model's RHS
+            ctx.judge(one, R["base_rhs"][i], R["base_rhs"][i], None if M is None else M["base_rhs"][i],
+                      what="base derivative at the totals: real base model vs the model's baseRhsOf")
+            ctx.judge(one, R["fluxes"][i], R["fluxes"][i], None if M is None else M["fluxes"][i],
+                      what="base fluxes at the totals: real base model vs the model's fluxAtTotals")
+            ctx.judge(one, R["posflux"][i], R["posflux"][i], None if M is None else M["posflux"][i],
+                      what="label flux per padded position (sum of isotopomer rates labelled there): real labelled model vs model")
+            ctx.judge(one, R["prod"][i], R["prod"][i], None if M is None else M["prod"][i],
+                      what="rate law = product of its arguments at the totals (MassAction premise): real vs model")
+            ma = set(case.get("ma", []))
+            bad = [k for k, ok in (R["prod"][i].get("ok") or []) if k in ma and not ok]
+            if bad:
+                ctx.violation(one, bad, "a reaction generated as mass action is not the product of its arguments")
         if scope and "ok" in R["rhs"][i]:
             ctx.judge(one, R["sums"][i], R["base_rhs"][i], None if M is None else M["sums"][i],
                       finding=F_HOMODIMER if nd else None, what="summed isotopomer derivatives vs base derivative at totals")
@@ -666,6 +795,78 @@ def exhaustive_cases(tier):
             out.append(single_rxn_case(subs, prods, labels, ident + [0]))
             out.append(single_rxn_case(subs, prods, labels, ident[:-1] + [N]))
     out += wide_cases(tier)
+    out += negative_index_cases(tier)
+    out += raw_coefficient_cases()
+    return out
+
+
+def raw_coefficient_cases():
+    """coefficients that are not Python ints on a mapped reaction (every kind x maps that are fine / short / out of
+    range: the TypeError comes before the map is looked at), explicit ints (nothing changes), and the order of errors
+    when an earlier reaction is rejected first; seed-independent"""
+    out = []
+    kinds = {
+        "ints": lambda c, v, first: {"int": v},
+        "floats": lambda c, v, first: {"float": str(v)},
+        "one_float": lambda c, v, first: {"float": str(v)} if first else {"int": v},
+        "half": lambda c, v, first: {"float": f"{2 * v + 1}/2"} if first else {"int": v},
+        "derived": lambda c, v, first: "derived" if first else {"int": v},
+        "derived_last": lambda c, v, first: {"int": v} if first else "derived",
+    }
+    shapes = [(["A"], ["B"], {"A": 1, "B": 1}), (["A", "A"], ["B"], {"A": 1, "B": 2}), (["A"], ["B", "C"], {"A": 2, "B": 1, "C": 1}),
+              ([], ["B"], {"B": 2})]
+    for subs, prods, labels in shapes:
+        N = max(sum(labels[c] for c in subs), sum(labels[c] for c in prods))
+        ident = list(range(N))
+        for m in (ident, ident[::-1], ident[:-1], ident + [N], [-1] * N):
+            for kind, f in kinds.items():
+                case = single_rxn_case(subs, prods, labels, m)
+                st = case["base"]["rxns"][0][1]["st"]
+                case["base"]["raw"] = [["v", [[c, f(c, v, i == 0)] for i, (c, v) in enumerate(st)]]]
+                out.append(case)
+                # a second mapped reaction declared first and rejected for its own reason: its error wins
+                two = single_rxn_case(subs, prods, labels, m)
+                two["base"]["raw"] = case["base"]["raw"]
+                two["base"]["pars"].append(["q", "1"])
+                two["base"]["rxns"].insert(0, ["u", {"args": ["q"] + [c for c in list(labels)[:1]], "e": prod_expr(2),
+                                                      "st": [[list(labels)[0], -1]]}])
+                two["maps"].insert(0, ["u", []])
+                two["ma"].append("u")
+                out.append(two)
+    return out
+
+
+def negative_index_cases(tier):
+    """maps with Python's negative indices (`rate_suffix[-1]` is the last position of the rate suffix, external 1s
+    included) and indices below -N (IndexError): every map over -N-1 .. N-1 with a negative entry for N <= 2 padded
+    positions; for N = 3 every permutation with every non-empty subset of entries written from the end, plus one
+    index below -N per position (all 7^3 maps in thorough); seed-independent"""
+    out = []
+    shapes = [[], [1], [2], [3], [1, 1], [1, 2], [2, 1], [0, 1]]
+    for ss in shapes:
+        for ps in shapes:
+            ns, np_ = sum(ss), sum(ps)
+            N = max(ns, np_)
+            if N == 0 or N > 3:
+                continue
+            subs = [f"S{i}" for i in range(len(ss))]
+            prods = [f"P{i}" for i in range(len(ps))]
+            labels = {**dict(zip(subs, ss)), **dict(zip(prods, ps))}
+            if N <= 2 or tier == "thorough":
+                ms = [m for m in it.product(range(-N - 1, N), repeat=N) if min(m) < 0]
+            else:
+                ms = []
+                for perm in it.permutations(range(N)):
+                    for k in range(1, 2 ** N):
+                        ms.append(tuple(perm[i] - N if (k >> i) & 1 else perm[i] for i in range(N)))
+                    for i in range(N):
+                        ms.append(tuple(-N - 1 if j == i else perm[j] for j in range(N)))
+            for m in ms:
+                out.append(single_rxn_case(subs, prods, labels, m))
+            # a short map is rejected before any index is read; a long one may carry negative entries beyond the products
+            if ns > 0:
+                out.append(single_rxn_case(subs, prods, labels, [-1] * (ns - 1)))
+            out.append(single_rxn_case(subs, prods, labels, [-1] * N + [-N - 1]))
     return out
 
 
@@ -690,8 +891,6 @@ def wide_cases(tier):
         for oth, ol in others:
             for wide_is_product in (True, False):
                 subs, prods = (oth, big) if wide_is_product else (big, oth)
-                if len(set(subs)) < len(subs):
-                    continue  # a repeated labelled substrate is finding class F-C05-1: covered by the random stratum
                 labels = {**bl, **ol}
                 N = max(sum(labels[c] for c in subs), sum(labels[c] for c in prods))
                 if N == 0 or N > 5:
@@ -704,6 +903,11 @@ def wide_cases(tier):
                              tuple([ident[1], ident[0]] + ident[2:])]
                 for m in perms:
                     out.append(single_rxn_case(subs, prods, labels, m))
+                # every length below the substrates' label positions (counted per occurrence: a coefficient 2 counts
+                # twice) is rejected; the first sufficient length is accepted
+                ns = sum(labels[c] for c in subs)
+                for k in range(ns + 1):
+                    out.append(single_rxn_case(subs, prods, labels, list(range(N))[:k]))
     return out
 
 
@@ -794,6 +998,11 @@ def random_case(rng):
             m = ident[: rng.randint(ns, np_ - 1)]  # covers the substrates but not the products
         else:
             m = ident
+        if N and m and rng.random() < 0.15:
+            # the same positions written from the end (Python's negative indices); sometimes one below -N
+            m = [i - N if (0 <= i < N and rng.random() < 0.5) else i for i in m]
+            if rng.random() < 0.15:
+                m[rng.randrange(len(m))] = -N - rng.randint(1, 2)
         maps.append([name, m])
     init, init_as_int = [], []
     for c in cpds:
@@ -815,6 +1024,23 @@ def random_case(rng):
     }
     if rng.random() < 0.3:
         case["queries"] = gen_queries(rng, case)
+    if maps and rng.random() < 0.05:
+        # coefficients as a user may write them: floats (-1.0), a Derived, or plain ints listed explicitly
+        name = rng.choice(maps)[0]
+        st = dict(rxns)[name]["st"]
+        kind = rng.choice(["float", "float1", "derived", "int"])
+        coefs = []
+        hit = rng.randrange(len(st))
+        for i, (c, v) in enumerate(st):
+            if kind == "int":
+                coefs.append([c, {"int": v}])
+            elif kind == "float":
+                coefs.append([c, {"float": str(v)}])
+            elif i == hit:
+                coefs.append([c, "derived" if kind == "derived" else {"float": f"{2 * v + 1}/2"}])
+            else:
+                coefs.append([c, {"int": v}])
+        case["base"]["raw"] = [[name, coefs]]
     return case
 
 
